@@ -40,7 +40,8 @@ def run(run, h):
             for rd in range(rounds):
                 for mode in (modes if rd == 0 else [rng.choice(modes)]):
                     known_case(run, h, pts, batch, rng, grp, n, mode)
-            for special in ("all_zero", "all_one", "all_minus_one", "solved_identity", "solved_h", "message_part_cancels", "bit_patterns", "bit_patterns"):
+            for special in ("all_zero", "all_one", "all_minus_one", "solved_identity", "solved_h", "message_part_cancels", "bit_patterns", "bit_patterns",
+                            "zero_blinding_factor", "zero_message_nonzero_bf"):
                 known_case(run, h, pts, batch, rng, grp, n, "rand", special)
             generated_case(run, h, pts, rng, grp, n)
             key_params_case(run, h, rng, grp, n)
@@ -63,6 +64,11 @@ def known_case(run, h, pts, batch, rng, grp, n, mode, special=None):
         bf = (-sum(g * m for g, m in zip(gdls, ms)) * pow(hdl, -1, Q)) % Q
     elif special == "solved_h":
         bf = (1 - sum(g * m for g, m in zip(gdls, ms)) * pow(hdl, -1, Q)) % Q
+    elif special == "zero_blinding_factor":
+        bf = 0
+        ms = [m if m else 1 for m in ms]
+    elif special == "zero_message_nonzero_bf":
+        ms, bf = [0] * n, rand_nz(rng)
     elif special == "bit_patterns":
         ms, bf = [rng.choice(PATTERNS) for _ in range(n)], rng.choice(PATTERNS)
     elif special == "message_part_cancels":
